@@ -32,8 +32,10 @@ func init() {
 type c08Scenario struct {
 	Kind    string     `json:"kind"` // queue-ll, stack-ll, queue-slice, stack-slice
 	Threads [][]string `json:"threads"`
+	Warm    int        `json:"warm_up_backlog,omitempty"` // > 0: two sequential backlogs of this size go through the wrapper first
 
 	h          *Hist
+	extra      []Violation
 	hung       bool
 	probes     map[string]int
 	inconcl    bool
@@ -43,6 +45,10 @@ type c08Scenario struct {
 func genC08(t *simrt.Tape, tier string) Scenario {
 	sc := &c08Scenario{probes: map[string]int{}}
 	sc.Kind = []string{"queue-ll", "stack-ll", "queue-slice", "stack-slice"}[t.Choose(4)]
+	if strings.HasSuffix(sc.Kind, "-ll") && t.Bool(1, 12) {
+		// the wrapped LinkedListQueue has been used heavily before the concurrent phase starts
+		sc.Warm = 130 + t.Choose(60)
+	}
 	maxT, maxOps := 4, 4
 	if tier == "thorough" {
 		if t.Bool(1, 3) {
@@ -173,6 +179,32 @@ func (sc *c08Scenario) Run(s *simrt.Sim) {
 		}
 		return nil
 	}
+	for round := 0; round < 2 && sc.Warm > 0; round++ {
+		// (not part of the recorded history: the structure is empty again when the history starts)
+		for i := 0; i < sc.Warm; i++ {
+			if cq != nil {
+				cq.Offer(-1000*(round+1) - i)
+			} else {
+				cs.Push(-1000*(round+1) - i)
+			}
+		}
+		for i := 0; i < sc.Warm; i++ {
+			var v int
+			var err error
+			want := -1000*(round+1) - i
+			if cq != nil {
+				v, err = cq.Poll()
+			} else {
+				v, err = cs.Pop()
+				want = -1000*(round+1) - (sc.Warm - 1 - i)
+			}
+			if err != nil || v != want {
+				sc.extra = append(sc.extra, Violation{Clause: "sequential-warm-up", Fingerprint: sc.Kind + ":wrong-removal", Detail: fmt.Sprintf("sequential warm-up round %d: removal %d of %d returned (%v, %v), want %d", round, i, sc.Warm, v, err, want)})
+				return
+			}
+		}
+		sc.probes["warm-up-backlog"]++
+	}
 	var ths []*simrt.Thread
 	val := 0
 	for i, ops := range sc.Threads {
@@ -270,6 +302,10 @@ func (sc *c08Scenario) Check(res *simrt.Result) []Violation {
 		return vs
 	}
 	vs = append(vs, opPanics(sc.h)...)
+	vs = append(vs, sc.extra...)
+	if len(sc.extra) > 0 {
+		return dedupe(vs)
+	}
 	h := sc.h
 	isStack := strings.HasPrefix(sc.Kind, "stack")
 	if sc.hung || res.Reason != "done" {
